@@ -395,4 +395,162 @@ def VInfo.keysDistinct (v : VInfo) : Bool := v.tables.all fun t => distinct (t.s
 def VInfo.queriesDetermined (v : VInfo) : Bool :=
   v.langKeysOk && v.keysValid && v.langsDistinct && v.keysDistinct
 
+/-! ### the source-code rendering
+
+`VersionInfo::source_code`: "Renders the version info back into its source code form" — the
+VERSIONINFO resource-definition statement of the resource compiler (Microsoft: "VERSIONINFO resource"),
+one line per statement, nested blocks indented by two spaces:
+
+    1 VERSIONINFO
+    FILEVERSION 22, 607, 2013, 25        HIWORD, LOWORD of dwFileVersionMS, HIWORD, LOWORD of dwFileVersionLS
+    PRODUCTVERSION 22, 607, 2013, 25     the same of dwProductVersionMS / LS
+    FILEFLAGSMASK 0x3f                   hexadecimal
+    FILEFLAGS 0x0
+    FILEOS (4 << 16) | 4                 HIWORD, LOWORD of dwFileOS
+    FILETYPE 2
+    FILESUBTYPE 0
+    {
+      BLOCK L"StringFileInfo"
+      {
+        BLOCK L"040904b0"
+        {
+          VALUE L"CompanyName", L"BE.Essential"
+        }
+      }
+      BLOCK L"VarFileInfo"
+      {
+        VALUE L"Translation", 1033, 1200
+      }
+    }
+
+The fixed-info statements are present iff the resource has a fixed file info (`VInfo.fixed`).  Strings
+are wide string literals; a string's value is written without its terminating NUL.  A Var other than
+"Translation" has no statement and is left out.  Text is a list of characters (scalar values); the
+definitions below do not refer to the model. -/
+
+/-- decimal numeral -/
+def decimal (n : Nat) : List Nat :=
+  if n < 10 then [48 + n] else decimal (n / 10) ++ [48 + n % 10]
+termination_by n
+decreasing_by omega
+
+/-- one lower-case hexadecimal digit -/
+def hexDigitLower (d : Nat) : Nat := if d < 10 then 48 + d else 87 + d
+
+/-- lower-case hexadecimal numeral, no prefix, no leading zeros -/
+def hexLower (n : Nat) : List Nat :=
+  if n < 16 then [hexDigitLower n] else hexLower (n / 16) ++ [hexDigitLower (n % 16)]
+termination_by n
+decreasing_by omega
+
+/-- the four hexadecimal digits of a 16-bit code unit -/
+def hex4 (u : Nat) : List Nat :=
+  [hexDigitLower (u / 4096 % 16), hexDigitLower (u / 256 % 16), hexDigitLower (u / 16 % 16), hexDigitLower (u % 16)]
+
+/-- UTF-16 read unit by unit: a scalar value, or a code unit that is ill-formed where it stands
+(a surrogate that is not part of a high, low pair) -/
+inductive Unit16 where
+  | scalar (c : Nat)
+  | unpaired (u : Nat)
+  deriving DecidableEq, Repr
+
+/-- the units of a list of UTF-16 code units (same reading as `text`, which replaces the ill-formed ones) -/
+def read16 : List Nat → List Unit16
+  | [] => []
+  | [u] => [if isHigh u || isLow u then .unpaired u else .scalar u]
+  | u :: u2 :: rest =>
+    if isHigh u && isLow u2 then .scalar (0x10000 + (u - 0xD800) * 0x400 + (u2 - 0xDC00)) :: read16 rest
+    else (if isHigh u || isLow u then .unpaired u else .scalar u) :: read16 (u2 :: rest)
+
+/-- one unit inside a wide string literal: NUL, line feed, carriage return, tab, the quote and the
+backslash are escaped, an ill-formed code unit is written `\uXXXX`, everything else stands for itself -/
+def escapeUnit : Unit16 → List Nat
+  | .scalar c =>
+    if c = 0 then ofString "\\0"
+    else if c = 10 then ofString "\\n"
+    else if c = 13 then ofString "\\r"
+    else if c = 9 then ofString "\\t"
+    else if c = 34 then ofString "\\\""
+    else if c = 92 then ofString "\\\\"
+    else [c]
+  | .unpaired u => ofString "\\u" ++ hex4 u
+
+/-- a wide string literal `L"…"` -/
+def quoted (ws : List Nat) : List Nat := ofString "L\"" ++ (read16 ws).flatMap escapeUnit ++ ofString "\""
+
+/-- one line at nesting depth `depth` -/
+def line (depth : Nat) (s : List Nat) : List Nat := List.replicate (2 * depth) 32 ++ s ++ [10]
+
+/-- the 16-bit word at byte offset `off` of a structure given as its little-endian 16-bit words -/
+def wordAt (f : List Nat) (off : Nat) : Nat := f.getD (off / 2) 0
+/-- the DWORD at byte offset `off`: low word first -/
+def dwordAt (f : List Nat) (off : Nat) : Nat := wordAt f off + 65536 * wordAt f (off + 2)
+def hiword (d : Nat) : Nat := d / 65536
+def loword (d : Nat) : Nat := d % 65536
+
+/-! byte offsets of the members of VS_FIXEDFILEINFO (Microsoft: thirteen DWORDs) -/
+def ffiFileVersionMS : Nat := 8
+def ffiFileVersionLS : Nat := 12
+def ffiProductVersionMS : Nat := 16
+def ffiProductVersionLS : Nat := 20
+def ffiFileFlagsMask : Nat := 24
+def ffiFileFlags : Nat := 28
+def ffiFileOS : Nat := 32
+def ffiFileType : Nat := 36
+def ffiFileSubtype : Nat := 40
+
+def commaSep (xs : List (List Nat)) : List Nat :=
+  match xs with
+  | [] => []
+  | x :: rest => x ++ rest.flatMap (fun y => ofString ", " ++ y)
+
+/-- `a, b, c, d` of a version stored as two DWORDs (most / least significant) at byte offsets `ms`,
+`ls`: high word, low word of the first, high word, low word of the second (the structure is given
+as words, low word first, so these are the words at `ms + 2`, `ms`, `ls + 2`, `ls`) -/
+def versionQuad (f : List Nat) (ms ls : Nat) : List Nat :=
+  commaSep [decimal (wordAt f (ms + 2)), decimal (wordAt f ms), decimal (wordAt f (ls + 2)), decimal (wordAt f ls)]
+
+/-- the fixed-info statements for the words `f` of a VS_FIXEDFILEINFO -/
+def fixedSource (f : List Nat) : List Nat :=
+  line 0 (ofString "1 VERSIONINFO") ++
+  line 0 (ofString "FILEVERSION " ++ versionQuad f ffiFileVersionMS ffiFileVersionLS) ++
+  line 0 (ofString "PRODUCTVERSION " ++ versionQuad f ffiProductVersionMS ffiProductVersionLS) ++
+  line 0 (ofString "FILEFLAGSMASK 0x" ++ hexLower (dwordAt f ffiFileFlagsMask)) ++
+  line 0 (ofString "FILEFLAGS 0x" ++ hexLower (dwordAt f ffiFileFlags)) ++
+  line 0 (ofString "FILEOS (" ++ decimal (hiword (dwordAt f ffiFileOS)) ++ ofString " << 16) | "
+            ++ decimal (loword (dwordAt f ffiFileOS))) ++
+  line 0 (ofString "FILETYPE " ++ decimal (dwordAt f ffiFileType)) ++
+  line 0 (ofString "FILESUBTYPE " ++ decimal (dwordAt f ffiFileSubtype))
+
+/-- `VALUE L"key", L"value"` -/
+def VStr.source (s : VStr) : List Nat :=
+  line 3 (ofString "VALUE " ++ quoted s.key ++ ofString ", " ++ quoted (stripTerminator s.stored))
+
+/-- `BLOCK L"lang-codepage" { … }` -/
+def VTable.source (t : VTable) : List Nat :=
+  line 2 (ofString "BLOCK " ++ quoted t.lang) ++ line 2 (ofString "{") ++ t.strings.flatMap VStr.source ++
+  line 2 (ofString "}")
+
+/-- `VALUE L"Translation", lang, codepage, …`; nothing for any other Var -/
+def VVar.source (x : VVar) : List Nat :=
+  if x.key = kTranslation then
+    line 2 (ofString "VALUE " ++ quoted x.key ++
+      (pairs x.value).flatMap (fun p => ofString ", " ++ decimal p.1 ++ ofString ", " ++ decimal p.2))
+  else []
+
+def VBlock.source : VBlock → List Nat
+  | .stringInfo ts =>
+    line 1 (ofString "BLOCK " ++ quoted kStringFileInfo) ++ line 1 (ofString "{") ++ ts.flatMap VTable.source ++
+    line 1 (ofString "}")
+  | .varInfo vs =>
+    line 1 (ofString "BLOCK " ++ quoted kVarFileInfo) ++ line 1 (ofString "{") ++ vs.flatMap VVar.source ++
+    line 1 (ofString "}")
+
+/-- `source_code()`: the resource as a VERSIONINFO statement (characters) -/
+def sourceOf (v : VInfo) : List Nat :=
+  (match v.fixed with
+   | some f => fixedSource f
+   | none => []) ++
+  line 0 (ofString "{") ++ v.blocks.flatMap VBlock.source ++ line 0 (ofString "}")
+
 end Pelite.Version.Spec
